@@ -202,7 +202,7 @@ CHECKS = {
                  thorough=dict(shards=4, checks=750, timeout=1800, gomaxprocs=2)),
         ],
         rule="generated concurrent workloads released by a barrier, N goroutines 2..16 (quick) / 2..48 (thorough), at several GOMAXPROCS values: (a) seat-manager AssignSeats/RandomAssignSeats/RemoveSeats/JoinPlayers/UpdatePlayerHasChips bursts with colliding seats; (b) table PlayerReserve (fixed colliding seats, random seats up to and beyond capacity, re-buys) / PlayersLeave / UpdateTablePlayers bursts on a table before its first hand; (c) at a drawn turn of a real hand every player at the table and strangers submit an action at once; oracle: (a)(b) the history is linearizable with respect to the sequential seat model (porcupine, nondeterministic for random seats) and the C03 consistency predicate holds afterwards; (c) accepted submissions = announced actions, every successful backend call was made for the entry whose turn it then was, the hand settles with chips conserved; a fatal runtime error of the process is a violation; non-trivial = a burst with conflicting operations (same seat / capacity edge / same turn); distinct = distinct workloads",
-        mandatory=dict(quick=['leave_via_batch_update', "conflict_same_seat", "capacity_edge", "overlapping", "burst", "accepted_per_burst_1", "GOMAXPROCS2", "GOMAXPROCS16"]),
+        mandatory=dict(quick=['reservations_racing_with_open', 'leave_via_batch_update', "conflict_same_seat", "capacity_edge", "overlapping", "burst", "accepted_per_burst_1", "GOMAXPROCS2", "GOMAXPROCS16"]),
         assumptions=ASSUME_COMMON + ["schedules are sampled (Go runtime scheduler), not enumerated", "UpdateTablePlayers batches mixing leaves and joins are left out of the concurrent workload (recorded C03 finding: not atomic even sequentially)", "PlayerJoin / PlayerRedeemChips / PlayerSettlementFinish take no lock and are outside the statement's list"],
     ),
     "C17": dict(
@@ -214,11 +214,11 @@ CHECKS = {
                  quick=dict(shards=4, checks=100, timeout=300),
                  thorough=dict(shards=16, checks=2000, timeout=1800)),
             dict(pkg="table", run="^TestC17Callbacks$",
-                 quick=dict(shards=4, checks=2, timeout=300),
+                 quick=dict(shards=4, checks=3, timeout=300),
                  thorough=dict(shards=16, checks=12, timeout=900)),
         ],
         rule="callback part (c17cb): the same generated CT / cash scenario (table duration 1 s, one hand played after it is over) on a bare engine with hand-registered callbacks and on a table created through the Manager; every callback kind the bare engine delivers (table, state, player-state, reserved, action, first-game, auto-open-end) must also be delivered by the manager-created table; (1) facade: the whole table-history driver (create, start, set-up, settlement-finish, reserve/join/re-buy/add-on/leave, blind update, deadline extension, all nine game actions incl. intruder attempts) is routed through Manager.X(tableID, ...) and the oracles of C01, C10, C12 and C15 apply unchanged; (2) twin managers with 1..6 tables and identical settings: a drawn sequence over all 25 manager methods is applied through the manager on one and through the engine obtained with GetTableEngine on the other; results (errors by text, values) and normalised table state must agree after every step; (3) every other table's state is byte-identical before and after each operation; (4) never-created / closed / released ids yield ErrManagerTableNotFound (-1 for the deadline); non-trivial = a sequence touching >=2 tables with at least one method of each group; distinct = distinct method sequences",
-        mandatory=dict(quick=['players_leave_empty_list', 'callback_autoend', 'callbacks_cash', 'callbacks_ct', "m:PauseTable", "m:CloseTable", "m:ReleaseTable", "m:StartTableGame", "m:UpdateBlind", "m:SetUpTableGame", "m:UpdateTablePlayers", "m:PlayerReserve", "m:PlayerJoin", "m:PlayerSettlementFinish", "m:PlayerRedeemChips", "m:PlayersLeave", "m:PlayerExtendActionDeadline", "m:PlayerReady", "m:PlayerPay", "m:PlayerBet", "m:PlayerRaise", "m:PlayerCall", "m:PlayerAllin", "m:PlayerCheck", "m:PlayerFold", "m:PlayerPass", "m:GetTableEngine", "m:CreateTable", "unknown_id", "closed_id", "released_id", "tables_6", "refused_create"]),
+        mandatory=dict(quick=['continue_interval_0', 'players_leave_empty_list', 'callback_autoend', 'callbacks_cash', 'callbacks_ct', "m:PauseTable", "m:CloseTable", "m:ReleaseTable", "m:StartTableGame", "m:UpdateBlind", "m:SetUpTableGame", "m:UpdateTablePlayers", "m:PlayerReserve", "m:PlayerJoin", "m:PlayerSettlementFinish", "m:PlayerRedeemChips", "m:PlayersLeave", "m:PlayerExtendActionDeadline", "m:PlayerReady", "m:PlayerPay", "m:PlayerBet", "m:PlayerRaise", "m:PlayerCall", "m:PlayerAllin", "m:PlayerCheck", "m:PlayerFold", "m:PlayerPass", "m:GetTableEngine", "m:CreateTable", "unknown_id", "closed_id", "released_id", "tables_6", "refused_create"]),
         assumptions=ASSUME_COMMON + ["hands are not twinned (the manager builds its own backend); hand-level effects of the player-game methods are covered by the facade part"],
     ),
     "C18": dict(
